@@ -46,6 +46,10 @@ fn gen_expr(r: &mut Rng, depth: usize, max_depth: usize) -> SX {
         };
     }
     let op = *r.pick(&["and", "or", "not"]);
+    // (operators without operands are not generated: the evaluator gives them "the value so far",
+    // e.g. ((or)) fires, and an existing unit test - bool_evaluation_test_max_depth_does_not_panic -
+    // asserts exactly that, so it cannot be repaired under the rule that the pinned tests pass
+    // unedited; not claimed either way)
     let n = r.range(1, 3);
     call(op, (0..n).map(|_| gen_expr(r, depth + 1, max_depth)).collect())
 }
